@@ -9,16 +9,17 @@ RULE = ("(a) scripted-loop model checking (see C12): all environment answer sequ
         "including every iteration limit 0..6, every clock-expiry read 1..16 and every start point of the classified pool (optimal, infeasible-"
         "stationary interior / at the upper bound, non-stationary at the lower bound, feasible below the objective limit, infeasible below the "
         "limit); status, iteration count and returned point compared with the reference loop whose termination uses the oracle's classification; "
-        "(b) complete real runs on infeasible / unbounded / core families x configurations x scalings x iteration limits: every LocallyInfeasible "
+        "(b) complete real runs on infeasible / unbounded / core families and on starts outside the variable box (incl. one whose objective is already below the limit) x configurations x scalings x iteration limits: every LocallyInfeasible "
         "and Unbounded result re-checked on the final internal iterate with the reference transformation, IterationLimit <=> iterations == limit")
-ASSUMPTIONS = ["TimeLimit is decided on a virtual clock: 'deadline passed' = the deciding read minus the timer's start read >= time_limit",
+ASSUMPTIONS = ["a few runs use the real clock with a 0.75 s deadline in a process older than that: TimeLimit is only accepted if the wall time around solve() reached the limit", "otherwise TimeLimit is decided on a virtual clock: 'deadline passed' = the deciding read minus the timer's start read >= time_limit",
                "stationarity of the violation measure uses the true box projection (fixed variables are free), which the code's stricter test implies",
                "IntegrationSolver is outside this property's anchors"]
 CASE_ALARM_S = 300
+TIMEOUT_IS_VIOLATION = "a solve with an iteration limit did not return"
 
 
 def run_table(tier, seed):
-    specs = G.adversarial_specs() + G.core_specs()[:2]
+    specs = G.adversarial_specs() + G.core_specs()[:2] + G.outside_start_specs()
     cfgs = G.configs_star() if tier == "quick" else G.configs_pairs()
     out = []
     k = 0
@@ -32,8 +33,18 @@ def run_table(tier, seed):
     return out
 
 
+def realtime_table(tier):
+    """Runs under the REAL clock with a finite deadline much shorter than the age of this process: TimeLimit may only be returned
+    if the wall time measured around solve() reached the limit (one-sided, hence never flaky)."""
+    out = []
+    for spec in G.core_specs()[:3]:
+        for ctl in ("DistanceRatio", "Exact"):
+            out.append({"t": "realtime", "spec": spec, "cfg": {"control": ctl, "iteration_limit": 30, "params": {"time_limit": 0.75}}, "sc": None})
+    return out
+
+
 def cases(tier, seed):
-    return [dict(c, t="loop") for c in L.cases(tier, seed)] + run_table(tier, seed)
+    return [dict(c, t="loop") for c in L.cases(tier, seed)] + run_table(tier, seed) + realtime_table(tier)
 
 
 def run_case(case):
@@ -41,6 +52,21 @@ def run_case(case):
         return L.run_chunk(case, ID)
     from pgfmc.drive.run import outcome_of
 
+    if case["t"] == "realtime":
+        import time
+
+        from pgfmc.core import framework
+        age = time.time() - framework.T_IMPORT
+        if age < 2.0:
+            time.sleep(2.0 - age)  # the process (and the pygradflow modules in it) is now older than the deadline
+        t0 = time.time()
+        ctx = G.execute(case)
+        wall = time.time() - t0
+        viol = []
+        r = ctx.rec.result
+        if r is not None and r.status.name == "TimeLimit" and wall < 0.75:
+            viol.append(M.V("C02|time_limit_before_deadline", f"TimeLimit after {r.iterations} iterations although solve() took {wall:.3f}s of a 0.75s limit"))
+        return {"outcome": "realtime:" + outcome_of(ctx.rec), "key": None, "violations": viol, "stats": {"run": 1}}
     ctx = G.execute(case)
     if ctx.setup_error is not None:
         return {"outcome": "setup:" + type(ctx.setup_error).__name__, "key": None, "violations": [], "stats": {}}
